@@ -317,7 +317,7 @@ impl Property for C06 {
     }
 
     fn cases(&self, tier: Tier) -> u32 {
-        tier.pick(15_000, 400_000)
+        tier.pick(80_000, 800_000)
     }
 
     fn rule(&self) -> String {
